@@ -49,7 +49,7 @@ def design(chk: Check):
 
 
 MODEL_TO_DOUBLE = {(1, 8): 1e-3, (8, 1): 100.0, (1, 64): 1e-8, (1, 2): 0.5, (1, 1): 1.0, (2, 1): 2.0, (-1, 1): -1.0,
-                   (0, 1): 0.0, (1, 4): 0.25}
+                   (0, 1): 0.0, (1, 4): 0.25, (1, 10): 7e-4, (4, 1): 60.0}
 
 
 def to_double(v):
@@ -101,24 +101,39 @@ def rule_replay(chk: Check):
         wk = jnp.array(np.tile(np.eye(norb)[:, :1][None], (n, 1, 1)) + 0.0j)
         pd = {"walkers": wk if restricted else [wk, wk], "weights": jnp.array(w0), "overlaps": jnp.ones(n) + 0.0j,
               "pop_control_ene_shift": jnp.array(0.0), "e_estimate": jnp.array(0.0)}
-        wdata = {"_ov": jnp.array(f + 0.0j)}
-        out = prop.propagate(trial, hd, pd, jnp.zeros((n, 1)), wdata)
-        w1 = np.asarray(out["weights"])
-        for i, r in enumerate(rows):
-            exp_zero = r["r"]["k"] == "num" and r["r"]["n"] == 0
-            got = complex(w1[i])
-            chk.case(("rule", restricted, i))
-            chk.traces += 1
-            if exp_zero:
-                ok = got == 0
-                expd = 0.0
+        # the rule speaks about |I| cos(theta): every row is also realised with a sizeable phase, I = f e^{i phi} / cos(phi)
+        # (same |I| cos(theta) = f, but |I| = f / cos(phi) lies on the other side of the window for rows near an edge);
+        # with a phase the product is only accurate to an ulp, so rows exactly at / one ulp beside a threshold are left out
+        for phi in (0.0, 1.0, -1.2):
+            if phi == 0.0:
+                sel = list(range(n))
+                ov = f + 0.0j
             else:
-                expd = f[i] * w0[i]
-                ok = got.imag == 0 and np.isfinite(got.real) and abs(got.real - expd) <= 1e-15 * abs(expd)
-            if not ok:
-                chk.violation(f"phaseless-rule:{'restricted' if restricted else 'unrestricted'}",
-                              f"propagate with |I|cos(theta) = {f[i]!r} and weight {w0[i]!r}: new weight {got!r}, the rule of "
-                              f"Weights.tla gives {expd!r} (model row {r})", {"row": r, "f": repr(f[i]), "w0": repr(w0[i])})
+                sel = [i for i, r in enumerate(rows) if r["f"]["k"] == "num" and r["f"]["u"] == 0 and np.isfinite(f[i])
+                       and all(abs(abs(f[i]) - t) > 1e-9 * t for t in (1e-3, 100.0))]
+                ov = np.where(np.isfinite(f), f, 0.0) * np.exp(1j * phi) / np.cos(phi)
+                ov = np.where(np.isfinite(f), ov, f + 0.0j)
+            wdata = {"_ov": jnp.array(ov)}
+            pd = {"walkers": wk if restricted else [wk, wk], "weights": jnp.array(w0), "overlaps": jnp.ones(n) + 0.0j,
+                  "pop_control_ene_shift": jnp.array(0.0), "e_estimate": jnp.array(0.0)}
+            out = prop.propagate(trial, hd, pd, jnp.zeros((n, 1)), wdata)
+            w1 = np.asarray(out["weights"])
+            for i in sel:
+                r = rows[i]
+                exp_zero = r["r"]["k"] == "num" and r["r"]["n"] == 0
+                got = complex(w1[i])
+                chk.case(("rule", restricted, i, phi))
+                chk.traces += 1
+                if exp_zero:
+                    ok = got == 0
+                    expd = 0.0
+                else:
+                    expd = f[i] * w0[i]
+                    ok = got.imag == 0 and np.isfinite(got.real) and abs(got.real - expd) <= (1e-15 if phi == 0.0 else 1e-13) * abs(expd)
+                if not ok:
+                    chk.violation(f"phaseless-rule:{'restricted' if restricted else 'unrestricted'}" + ("" if phi == 0.0 else ":with-phase"),
+                                  f"propagate with |I|cos(theta) = {f[i]!r} (phase of I: {phi}) and weight {w0[i]!r}: new weight {got!r}, the "
+                                  f"rule of Weights.tla gives {expd!r} (model row {r})", {"row": r, "f": repr(f[i]), "w0": repr(w0[i]), "phi": phi})
     chk.note("rule_table_rows", n)
     chk.sample({"rule_table_row": rows[0], "as_doubles": [repr(to_double(rows[0]["f"])), repr(to_double(rows[0]["w0"]))]})
 
